@@ -41,6 +41,7 @@ type World struct {
 	step  int
 	// ModeC: client operations run as tasks and commit-worker sites park.
 	ModeC bool
+	usedART bool
 }
 
 var worldSeq int
@@ -112,6 +113,9 @@ func (w *World) Open(dir string) (err error) {
 	verifhook.BeforeLockFn = func(l verifhook.TryLocker) { w.Sched.BeforeLock(l) }
 	w.FS.Root = dir
 	w.Opt = w.Options(dir)
+	if w.Opt.MemTableEngine == NoKV.MemTableEngineART {
+		w.usedART = true
+	}
 	defer func() {
 		if r := recover(); r != nil {
 			err = fmt.Errorf("open panicked: %v", r)
@@ -350,14 +354,28 @@ func Where(c lsm.VerifCopy) string {
 }
 
 // ArtPrefixPair reports whether key takes part in the ART memtable's
-// prefix-key defect (known finding, root property C07): with the ART engine an
-// internal key that is a strict prefix of another one (user keys "k0" and
-// "k0\x00" at version 2^64-1, whose suffix is eight zero bytes) collides.
+// prefix-key defects (known findings, root property C07): the ART engine orders
+// keys by raw bytes and pads short keys with 0x00, so when one user key is a
+// prefix of another ("k" and "k1", "k0" and "k0\x00") it (a) iterates them in the wrong
+// internal-key order - an SST flushed from such a memtable is unsorted and point
+// lookups miss - and (b) at version 2^64-1 (suffix = eight zero bytes) the two
+// leaves collide and one is lost. A run is affected if it ever used the ART
+// engine (flushed tables outlive a reopen with another engine).
 func ArtPrefixPair(w *World, key []byte) bool {
-	if w.C.CfgInt("memtable_art", 0) != 1 || w.C.CfgInt("keys", 0) < 5 {
+	if !w.usedART {
 		return false
 	}
-	return string(key) == "k0" || string(key) == "k0\x00"
+	n := int(w.C.CfgInt("keys", 0))
+	if n > len(keyNames) {
+		n = len(keyNames)
+	}
+	for i := 0; i < n; i++ {
+		o := keyNames[i]
+		if o != string(key) && (strings.HasPrefix(o, string(key)) || strings.HasPrefix(string(key), o)) {
+			return true
+		}
+	}
+	return false
 }
 
 // DescribeCopies renders every stored copy of (cf,key) for violation details.
